@@ -1,8 +1,8 @@
 (* Props/C14.v — leading mode-n vectors (nvecs). Only statements, `exact`, Print Assumptions.
    Partial by design (DESIGN §C14): the eigen solvers are certificate-checked oracles in the correspondence. *)
 From Coq Require Import List Arith Bool Reals Ring Permutation Sorted.
-From PV Require Import Base.Index Base.Sum Np.Array Model.Sparse Model.Repr Np.NpR Model.C14Nvecs Model.C14Gram Proofs.C14Sums
-                       Proofs.C14Split Proofs.C14GramSp Proofs.C14GramT Proofs.C14Post.
+From PV Require Import Base.Index Base.Sum Np.Array Model.Sparse Model.Repr Model.C01Conv Model.C01Coo Model.C01Ttm Np.NpR Model.C14Nvecs Model.C14Gram Proofs.C14Sums
+                       Proofs.C14Split Proofs.C14GramSp Proofs.C14GramT Proofs.C14Post Model.C14Unfold Proofs.C14Unfold Model.C01Unique Proofs.C14Coo.
 Import ListNotations.
 
 Section C14_ring.
@@ -37,7 +37,68 @@ Theorem C14_gram_tucker : forall (T : ttensor V) (n a b : nat),
   a < nrows (nth n (tfactors T) []) -> b < nrows (nth n (tfactors T) []) ->
   mget v0 (gram_t_impl v0 v1 vadd vmul T n) a b = gram_spec v0 vadd vmul (tshape T) (den_t v0 v1 vadd vmul T) n a b.
 Proof. exact (gram_tucker V v0 v1 vadd vmul vsub vopp Vring). Qed.
+
+(* tensor.nvecs as the code runs it: the modes of `to_tenmat(rdims=[n])` come from the GENERATED gather_wrap_dims (regenerated from
+   pyttb_utils.py on every run), the unfolding is C01's transliteration of tensor.to_tenmat (permute + F-order reshape; theorem
+   C01_tenmat) followed by tenmat.double, then Xn @ Xn.T: the request is accepted and the matrix handed to the solver is
+   gram_dense_impl, hence gram_spec of the denotation *)
+Theorem C14_gram_dense_code : forall (X : dense V) (n : nat), wf_dense X -> n < length (dshape X) ->
+  gram_dense_tm v0 vadd vmul X n = Some (gram_dense_impl v0 vadd vmul X n).
+Proof. exact (gram_dense_tm_eq V v0 vadd vmul). Qed.
+Theorem C14_gram_dense_code_spec : forall (X : dense V) (n a b : nat), wf_dense X -> n < length (dshape X) ->
+  a < nth n (dshape X) 0 -> b < nth n (dshape X) 0 ->
+  exists Y, gram_dense_tm v0 vadd vmul X n = Some Y /\ mget v0 Y a b = gram_spec v0 vadd vmul (dshape X) (den_dense v0 X) n a b.
+Proof. exact (gram_dense_tm_spec V v0 vadd vmul). Qed.
+
+(* ttensor.nvecs with a dense core as the code runs it: H = core.ttm(V) is tensor.ttm over all modes (C02's permute / reshape /
+   matmul algorithm, theorem C01_tucker_impl), HnT and GnT are `to_tenmat(cdims=[n]).double()` through the generated
+   gather_wrap_dims and C01's to_tenmat, XnT = GnT.dot(Un^T), Y = HnT^T.dot(XnT): Y is gram_t_impl, hence gram_spec of den_t *)
+Theorem C14_gram_tucker_code : forall (T : ttensor V) (n : nat), wf_dense (tcore T) -> wf_tucker V T -> n < length (tfactors T) ->
+  gram_t_tm v0 vadd vmul T n = Some (gram_t_impl v0 v1 vadd vmul T n).
+Proof. exact (gram_t_tm_eq V v0 v1 vadd vmul vsub vopp Vring). Qed.
+Theorem C14_gram_tucker_code_spec : forall (T : ttensor V) (n a b : nat), wf_dense (tcore T) -> wf_tucker V T ->
+  n < length (tfactors T) -> a < nrows (nth n (tfactors T) []) -> b < nrows (nth n (tfactors T) []) ->
+  exists Y, gram_t_tm v0 vadd vmul T n = Some Y /\ mget v0 Y a b = gram_spec v0 vadd vmul (tshape T) (den_t v0 v1 vadd vmul T) n a b.
+Proof. exact (gram_t_tm_spec V v0 v1 vadd vmul vsub vopp Vring). Qed.
+
+(* ttensor.nvecs with a SPARSE core as the code runs it: GnT = core.to_sptenmat([n], cdims_cyclic="t").double() through the generated
+   gather_wrap_dims, C01's sptensor.to_sptenmat WITH the sptenmat constructor (sorted, duplicates summed; C01_sptenmat_sorted) and
+   sptenmat.double (a COO matrix read through its denotation; C01_sptenmat_double); HnT likewise from H = core.ttm(V), which
+   sptensor.ttm returns as a sptensor or as a tensor: for EVERY well-formed H of either kind that holds core x_m V_m, the matrix
+   HnT^T.dot(GnT.dot(Un^T)) is gram_t_impl, hence gram_spec of den_t *)
+Hypothesis isz_spec : forall v, isz v = true <-> v = v0.
+Theorem C14_gram_tucker_sparse_core : forall (H : @hrepr V) (GS : sparse V) (Us : list (list (list V))) (n : nat),
+  let T := mkT (full v0 GS) Us in
+  wf_sp isz GS -> wf_tucker V T -> n < length Us ->
+  hwf isz H -> hshape H = map (@nrows V) (tucker_vs v0 vadd vmul Us n) ->
+  (forall i, inb (hshape H) i = true -> hden v0 H i = tucker_H v0 v1 vadd vmul T n i) ->
+  gram_tsp_tm v0 vadd vmul isz H GS (nth n Us []) n = Some (gram_t_impl v0 v1 vadd vmul T n).
+Proof. exact (gram_tsp_tm_eq V v0 v1 vadd vmul vsub vopp Vring isz isz_spec). Qed.
+Theorem C14_gram_tucker_sparse_core_spec : forall (H : @hrepr V) (GS : sparse V) (Us : list (list (list V))) (n a b : nat),
+  let T := mkT (full v0 GS) Us in
+  wf_sp isz GS -> wf_tucker V T -> n < length Us ->
+  hwf isz H -> hshape H = map (@nrows V) (tucker_vs v0 vadd vmul Us n) ->
+  (forall i, inb (hshape H) i = true -> hden v0 H i = tucker_H v0 v1 vadd vmul T n i) ->
+  a < nrows (nth n Us []) -> b < nrows (nth n Us []) ->
+  exists Y, gram_tsp_tm v0 vadd vmul isz H GS (nth n Us []) n = Some Y /\
+    mget v0 Y a b = gram_spec v0 vadd vmul (tshape T) (den_t v0 v1 vadd vmul T) n a b.
+Proof. exact (gram_tsp_tm_spec V v0 v1 vadd vmul vsub vopp Vring isz isz_spec). Qed.
+
+(* the product model used for scipy.sparse: for EVERY COO matrix (repeated positions allowed) the coordinate-level product of the
+   stored triples that C14_gram_sparse speaks about is the matrix product A^T A of the array the COO matrix denotes
+   (A = toarray(): repeated positions summed) *)
+Theorem C14_coo_product : forall (C : coo V) (K N a b : nat), coo_shape C = [K; N] -> a < N -> b < N ->
+  Forall (fun rc => inb [K; N] rc = true) (coo_subs C) ->
+  coo_gram v0 vadd vmul (coo_triples C) a b = sum_n v0 vadd K (fun k => vmul (den_coo v0 vadd C [k; a]) (den_coo v0 vadd C [k; b])).
+Proof. exact (coo_gram_den V v0 v1 vadd vmul vsub vopp Vring). Qed.
 End C14_ring.
+Print Assumptions C14_coo_product.
+Print Assumptions C14_gram_tucker_sparse_core.
+Print Assumptions C14_gram_tucker_sparse_core_spec.
+Print Assumptions C14_gram_dense_code.
+Print Assumptions C14_gram_dense_code_spec.
+Print Assumptions C14_gram_tucker_code.
+Print Assumptions C14_gram_tucker_code_spec.
 Print Assumptions C14_gram_dense.
 Print Assumptions C14_gram_kruskal.
 Print Assumptions C14_gram_sparse.
@@ -57,6 +118,33 @@ Example C14_example_gram_tucker :
   gram_t_impl 0 1 Nat.add Nat.mul T 2 = gram_matrix 0 Nat.add Nat.mul (tshape T) (den_t 0 1 Nat.add Nat.mul T) 2 /\
   gram_t_impl 0 1 Nat.add Nat.mul T 1 = [[588; 294]; [294; 147]].
 Proof. exact gram_tucker_example. Qed.
+
+Example C14_example_gram_code :
+  gram_dense_tm 0 Nat.add Nat.mul (mkDense [2; 3] [6; 8; 0; 2; 2; 2]) 0 = Some [[40; 52]; [52; 72]] /\
+  gram_dense_tm 0 Nat.add Nat.mul (mkDense [2; 3] [6; 8; 0; 2; 2; 2]) 1 = Some [[100; 16; 28]; [16; 4; 4]; [28; 4; 8]] /\
+  tenmat_double_gen 0 (mkDense [2; 3; 2] (seq 0 12)) (Some [1]) None = Some (mkDense [3; 4] [0; 2; 4; 1; 3; 5; 6; 8; 10; 7; 9; 11]) /\
+  dims_of_gen 4 None (Some [2]) None = Some ([0; 1; 3], [2]) /\
+  (let T := mkT (mkDense [2; 1; 2] [1; 2; 0; 3]) [[[1; 0]; [2; 1]; [0; 1]]; [[2]; [1]]; [[1; 1]; [0; 2]]] in
+   gram_t_tm 0 Nat.add Nat.mul T 1 = Some [[588; 294]; [294; 147]] /\
+   gram_t_tm 0 Nat.add Nat.mul T 0 = Some (gram_t_impl 0 1 Nat.add Nat.mul T 0)).
+Proof. exact gram_tm_example. Qed.
+
+Example C14_example_gram_sparse_core :
+  let GS := mkSp [2; 1; 2] [[1; 0; 1]; [0; 0; 0]; [1; 0; 0]] [3; 1; 2] in
+  let Us := [[[1; 0]; [2; 1]; [0; 1]]; [[2]; [1]]; [[1; 1]; [0; 2]]] in
+  let Hd := fun n => ttensor_full_impl 0 Nat.add Nat.mul (mkT (full 0 GS) (tucker_vs 0 Nat.add Nat.mul Us n)) in
+  gram_tsp_tm 0 Nat.add Nat.mul (Nat.eqb 0) (HSparse (to_sptensor 0 (Nat.eqb 0) (Hd 1))) GS (nth 1 Us []) 1 = Some [[588; 294]; [294; 147]] /\
+  gram_tsp_tm 0 Nat.add Nat.mul (Nat.eqb 0) (HDense (Hd 1)) GS (nth 1 Us []) 1 = Some [[588; 294]; [294; 147]] /\
+  gram_tsp_tm 0 Nat.add Nat.mul (Nat.eqb 0) (HSparse (to_sptensor 0 (Nat.eqb 0) (Hd 0))) GS (nth 0 Us []) 0
+    = Some (gram_t_impl 0 1 Nat.add Nat.mul (mkT (full 0 GS) Us) 0) /\
+  option_map (@coo_subs nat) (sptenmat_double_gen Nat.add (Nat.eqb 0) GS 0) = Some [[0; 0]; [0; 1]; [1; 1]].
+Proof. exact gram_tsp_example. Qed.
+
+Example C14_example_coo :
+  let C := mkCoo [3; 2] [[0; 1]; [2; 0]; [0; 1]; [0; 0]] [5; 2; 1; 3] in      (* position (0,1) stored twice *)
+  coo_gram 0 Nat.add Nat.mul (coo_triples C) 0 1 = 18 /\ coo_gram 0 Nat.add Nat.mul (coo_triples C) 1 1 = 36 /\
+  coo_toarray 0 Nat.add C = mkDense [3; 2] [3; 0; 2; 6; 0; 0].
+Proof. exact coo_gram_example. Qed.
 
 Example C14_example_gram :
   gram_k_impl 0%nat Nat.add Nat.mul (mkK [2; 1] [[[1; 0]; [1; 2]]; [[3; 1]; [0; 1]; [1; 0]]]) 0 = [[40; 52]; [52; 72]]
